@@ -47,13 +47,12 @@ def lockFacts : List MethodFact := [
   ⟨"alreadySeenWithInfo", false, false, false, false, ⟨true, false, []⟩, ⟨false, false, []⟩⟩,
   ⟨"backupDirs", false, false, false, false, ⟨false, true, ["backupRequired", "setInfoIfNotAlreadySeen"]⟩, ⟨false, false, []⟩⟩,
   ⟨"backupRequired", false, false, false, false, ⟨false, false, ["Lstat", "alreadySeenWithInfo", "setInfoIfNotAlreadySeen"]⟩, ⟨false, false, []⟩⟩,
-  ⟨"forgetInfos", false, false, false, false, ⟨true, false, []⟩, ⟨false, false, []⟩⟩,
   ⟨"realPath", false, false, false, false, ⟨false, false, []⟩, ⟨false, false, []⟩⟩,
   ⟨"realPathWithFound", false, false, false, false, ⟨false, false, []⟩, ⟨false, false, []⟩⟩,
   ⟨"remove", false, false, false, false, ⟨false, true, ["realPath", "tryBackup"]⟩, ⟨false, false, []⟩⟩,
   ⟨"setInfoIfNotAlreadySeen", false, false, false, false, ⟨true, false, []⟩, ⟨false, false, []⟩⟩,
   ⟨"tryBackup", false, false, false, false, ⟨false, true, ["backupDirs", "backupRequired", "setInfoIfNotAlreadySeen"]⟩, ⟨false, false, []⟩⟩,
-  ⟨"tryRemoveBackup", false, false, false, false, ⟨true, true, ["alreadySeen", "forgetInfos"]⟩, ⟨false, false, []⟩⟩,
+  ⟨"tryRemoveBackup", false, false, false, false, ⟨true, true, ["alreadySeen"]⟩, ⟨false, false, []⟩⟩,
   ⟨"tryRemoveBackupPaths", false, false, false, false, ⟨false, true, []⟩, ⟨false, false, []⟩⟩,
   ⟨"tryRemoveBasePaths", false, false, false, false, ⟨false, true, []⟩, ⟨false, false, []⟩⟩,
   ⟨"tryRestoreDirPaths", false, false, false, false, ⟨true, true, []⟩, ⟨false, false, []⟩⟩,
